@@ -85,7 +85,7 @@ type Term struct {
 	Val   *big.Int // int / bv literal
 	B     bool     // bool literal
 	Bound []*Term  // quantifier-bound vars
-	Pats  []*Term  // quantifier patterns (optional)
+	Pats  [][]*Term // quantifier patterns: alternatives of multi-patterns (optional)
 	str   string
 }
 
@@ -423,6 +423,20 @@ func mkForall(bound []*Term, body *Term, pats ...*Term) *Term {
 	if len(bound) == 0 {
 		return body
 	}
+	t := &Term{Op: "forall", Sort: SBool, Bound: bound, Args: []*Term{body}}
+	if len(pats) > 0 {
+		t.Pats = [][]*Term{pats}
+	}
+	return t
+}
+
+func mkForallPats(bound []*Term, body *Term, pats [][]*Term) *Term {
+	if body.isTrue() {
+		return tTrue
+	}
+	if len(bound) == 0 {
+		return body
+	}
 	return &Term{Op: "forall", Sort: SBool, Bound: bound, Args: []*Term{body}, Pats: pats}
 }
 
@@ -495,14 +509,18 @@ func (t *Term) String() string {
 		}
 		b.WriteString(") ")
 		if len(t.Pats) > 0 {
-			b.WriteString("(! " + t.Args[0].String() + " :pattern (")
-			for i, p := range t.Pats {
-				if i > 0 {
-					b.WriteString(" ")
+			b.WriteString("(! " + t.Args[0].String())
+			for _, alt := range t.Pats {
+				b.WriteString(" :pattern (")
+				for i, p := range alt {
+					if i > 0 {
+						b.WriteString(" ")
+					}
+					b.WriteString(p.String())
 				}
-				b.WriteString(p.String())
+				b.WriteString(")")
 			}
-			b.WriteString("))")
+			b.WriteString(")")
 		} else {
 			b.WriteString(t.Args[0].String())
 		}
@@ -603,8 +621,10 @@ func (st *symtab) collect(t *Term, bound map[string]bool) {
 			st.noteSort(v.Sort)
 		}
 		st.collect(t.Args[0], nb)
-		for _, p := range t.Pats {
-			st.collect(p, nb)
+		for _, alt := range t.Pats {
+			for _, p := range alt {
+				st.collect(p, nb)
+			}
 		}
 	default:
 		for _, a := range t.Args {
@@ -658,7 +678,9 @@ func funcNames(t *Term, into map[string]bool) {
 	for _, a := range t.Args {
 		funcNames(a, into)
 	}
-	for _, p := range t.Pats {
-		funcNames(p, into)
+	for _, alt := range t.Pats {
+		for _, p := range alt {
+			funcNames(p, into)
+		}
 	}
 }
